@@ -3,6 +3,7 @@ package main
 import (
 	"fmt"
 	"go/token"
+	"go/types"
 	"regexp"
 	"sort"
 	"strings"
@@ -94,6 +95,8 @@ func propC13(c *Check) {
 	c.Rule("R3", "a status write that leaves {Pending, Active} is preceded by PowerRanking.Remove and followed by no PowerRanking.Set; the locking index is written only for Pending/Active records and cleared when a record leaves them")
 	c.Rule("R5", "the begin blocker cannot fail on a block without a last commit (the first block of a chain; its height is above 1 when the chain starts from an exported state): every explicit failure exit of the reward distribution is reached only with a non-empty vote list")
 	c.hookFailureNeedsLastCommit("R5")
+	c.Rule("R6", "a power reported to the consensus engine fits what it accepts: wherever the locking module converts a validator's uint64 power to the int64 of a ValidatorUpdate, an upper bound on that power has been established — at the conversion, or where the power is increased (a power of 2^63 is reported as a negative number, and the engine refuses a set whose total exceeds MaxInt64/8)")
+	c.reportedPowerFits("R6")
 	c.Rule("R4", "EndBlocker emission: each update carries the power and key of the record just loaded, additions are mirrored in ValidatorSet, removals delete from it, the walk is bounded by MaxValidators, unranked records abort")
 	vfs, en := p.validatorFns()
 	ranked := en.Set("Pending", "Active")
@@ -780,6 +783,92 @@ func propC14(c *Check) {
 		}
 	}
 
+	// window roll-over: misses are counted per signing window, so wherever the window offset restarts at 0 the
+	// missed counter restarts with it (a counter carried over would sum absences of different windows)
+	{
+		r := p.R(hv)
+		var offs, miss []*ssa.Store
+		for _, b := range hv.Blocks {
+			for _, in := range b.Instrs {
+				if st, ok := in.(*ssa.Store); ok && r.E(st.Val) == "0" {
+					switch _, path := rootAlloc(st.Addr); path {
+					case ".SigningInfo.Offset":
+						offs = append(offs, st)
+					case ".SigningInfo.Missed":
+						miss = append(miss, st)
+					}
+				}
+			}
+		}
+		for i, o := range offs {
+			cons := fmt.Sprintf("missed-counter-restarts-with-the-window#%d @ %s", i+1, FuncKey(hv))
+			ok := false
+			for _, m := range miss {
+				if instrDominates(m, o) && !r.blockReach(m.Block())[m.Block()] || m.Block() == o.Block() {
+					ok = true
+				}
+			}
+			if !ok && len(miss) > 0 {
+				var avoid []ssa.Instruction
+				for _, m := range miss {
+					avoid = append(avoid, m)
+				}
+				if t, _ := (&PathSearch{Fn: hv, From: o, AvoidInstr: instrSet(avoid), IsTarget: successTargets(hv)}).Find(); t == nil {
+					ok = true
+				}
+			}
+			if ok {
+				c.Held("R2", cons, p.InstrPos(o), "Missed = 0 accompanies Offset = 0")
+			} else {
+				c.Violated("R2", cons, p.InstrPos(o), "the window offset restarts at 0 but the missed counter is kept: absences of different windows add up")
+			}
+		}
+		c.Floor("R2", "signing-window offset restarts", len(offs), 1)
+	}
+	c.HookRuns("R2", "x/locking/module.AppModule.BeginBlock", "x/locking/keeper.Keeper.BeginBlocker", "x/locking/keeper.Keeper.HandleVoteInfos")
+	c.HookRuns("R3", "x/locking/module.AppModule.BeginBlock", "x/locking/keeper.Keeper.BeginBlocker", "x/locking/keeper.Keeper.HandleEvidences")
+
+	// every piece of double-sign / light-client-attack evidence is looked at: once an evidence item has been fetched,
+	// the next item or a success exit is reached without handleEvidence only over the outcome "not of that kind" —
+	// for both kinds (whether a piece counts is decided inside handleEvidence, per piece: an expired piece must not
+	// stand in for a fresh one)
+	{
+		hes := p.MustFn("x/locking/keeper.Keeper.HandleEvidences")
+		c.touch(hes)
+		items := p.FindCalls(hes, `^EvidenceList\.Get\(`)
+		var handled []ssa.Instruction
+		for _, ci := range callsIn(hes) {
+			if g := ci.Common().StaticCallee(); g != nil && FuncKey(g) == "x/locking/keeper.Keeper.handleEvidence" {
+				handled = append(handled, ci)
+			}
+		}
+		if len(items) != 1 || len(handled) == 0 {
+			c.Violated("R3", "every-piece-of-evidence-handled @ "+FuncKey(hes), p.Pos(hes.Pos()), fmt.Sprintf("%d evidence fetches, %d handleEvidence calls reason=not-established", len(items), len(handled)))
+		} else {
+			item := ssa.Instruction(items[0])
+			succ := successTargets(hes)
+			for _, kind := range []string{"LightClientAttack", "DuplicateVote"} {
+				other := map[edgeKey]bool{}
+				for _, ef := range p.EdgeFacts(hes) {
+					if m := cmpRe.FindStringSubmatch(ef.Fact); m != nil && m[2] == "!=" && (m[1] == kind || m[3] == kind) {
+						other[ef.Key()] = true
+					}
+				}
+				cons := "every-piece-of-evidence-handled " + kind + " @ " + FuncKey(hes)
+				if len(other) == 0 {
+					c.Violated("R3", cons, p.Pos(hes.Pos()), "no test of the evidence type against "+kind+" reason=not-established")
+					continue
+				}
+				ps := &PathSearch{Fn: hes, From: item, AvoidInstr: instrSet(handled), AvoidEdges: other, IsTarget: func(in ssa.Instruction) bool { return in == item || succ(in) }}
+				if t, path := ps.Find(); t != nil {
+					c.Violated("R3", cons, p.InstrPos(t), "a piece of evidence that may be of kind "+kind+" is passed over without handleEvidence", p.describePath(path)...)
+				} else {
+					c.Held("R3", cons, p.InstrPos(handled[0]), "the next piece / the end is reached without handleEvidence only when the type differs")
+				}
+			}
+		}
+	}
+
 	// R3 evidence filter
 	he := p.MustFn("x/locking/keeper.Keeper.handleEvidence")
 	c.touch(he)
@@ -1049,6 +1138,7 @@ func propC15(c *Check) {
 
 	// R2
 	dm := p.MustFn("x/locking/keeper.Keeper.DequeueMatureUnlocks")
+	c.HookRuns("R2", "x/locking/module.AppModule.EndBlock", "x/locking/keeper.Keeper.EndBlocker", "x/locking/keeper.Keeper.DequeueMatureUnlocks")
 	c.touch(dm)
 	{
 		rd := p.R(dm)
@@ -1241,4 +1331,102 @@ func loopIterationCanSkip(fn *ssa.Function, call ssa.Instruction) (bool, []*ssa.
 		}
 	}
 	return false, nil
+}
+
+// reportedPowerFits (C13/R6): every uint64→int64 conversion of a validator power that feeds a ValidatorUpdate in the
+// locking module needs an upper bound on the converted value: (a) an edge fact `X <= c` / `X < c` on every path to the
+// conversion, or (b) every additive store to Validator.Power in the module is followed, on every path to a success
+// exit of its function, by an edge that bounds a value rendered with ".Power" from above.
+func (c *Check) reportedPowerFits(rule string) {
+	p := c.p
+	boundRe := regexp.MustCompile(`^\((.*) (<|<=) (.*)\)$`)
+	// (b) additive power stores and whether each is bounded afterwards
+	vt := p.LookupType("x/locking/types", "Validator")
+	allBounded, nAdd := true, 0
+	var unbounded []string
+	for _, f := range p.ProdFuncs {
+		if !strings.HasPrefix(FuncKey(f), "x/locking/") {
+			continue
+		}
+		for _, b := range f.Blocks {
+			for _, in := range b.Instrs {
+				st, ok := in.(*ssa.Store)
+				if !ok {
+					continue
+				}
+				fa, ok := st.Addr.(*ssa.FieldAddr)
+				if !ok || fieldName(fa.X.Type(), fa.Field) != "Power" {
+					continue
+				}
+				if pt, isP := fa.X.Type().Underlying().(*types.Pointer); !isP || !types.Identical(pt.Elem(), vt.Obj().Type()) {
+					continue
+				}
+				bo, ok := st.Val.(*ssa.BinOp)
+				if !ok || bo.Op != token.ADD {
+					continue
+				}
+				nAdd++
+				avoid := map[edgeKey]bool{}
+				for _, ef := range p.EdgeFacts(f) {
+					if m := boundRe.FindStringSubmatch(ef.Fact); m != nil && strings.Contains(m[1], "Power") && !strings.Contains(m[3], ".Power") {
+						avoid[ef.Key()] = true
+					}
+				}
+				if t, _ := (&PathSearch{Fn: f, From: st, AvoidEdges: avoid, IsTarget: successTargets(f)}).Find(); t != nil || len(avoid) == 0 {
+					allBounded = false
+					unbounded = append(unbounded, p.InstrPos(st))
+				}
+			}
+		}
+	}
+	// (a) the conversions of the end blocker (what the running chain reports)
+	f := p.MustFn("x/locking/keeper.Keeper.EndBlocker")
+	c.touch(f)
+	r := p.R(f)
+	n, unguarded := 0, []string{}
+	for _, b := range f.Blocks {
+		for _, in := range b.Instrs {
+			cv, ok := in.(*ssa.Convert)
+			if !ok {
+				continue
+			}
+			from, okF := cv.X.Type().Underlying().(*types.Basic)
+			to, okT := cv.Type().Underlying().(*types.Basic)
+			if !okF || !okT || from.Kind() != types.Uint64 || to.Kind() != types.Int64 {
+				continue
+			}
+			x := r.E(cv.X)
+			if !strings.Contains(x, "Power") {
+				continue
+			}
+			n++
+			avoid := map[edgeKey]bool{}
+			for _, ef := range p.EdgeFacts(f) {
+				if m := boundRe.FindStringSubmatch(ef.Fact); m != nil && m[1] == x {
+					avoid[ef.Key()] = true
+				}
+			}
+			guarded := len(avoid) > 0
+			if guarded {
+				if t, _ := (&PathSearch{Fn: f, AvoidEdges: avoid, IsTarget: func(i ssa.Instruction) bool { return i == ssa.Instruction(cv) }}).Find(); t != nil {
+					guarded = false
+				}
+			}
+			if !guarded {
+				unguarded = append(unguarded, p.InstrPos(cv))
+			}
+		}
+	}
+	cons := "reported-power-fits-int64 @ " + FuncKey(f)
+	switch {
+	case n == 0:
+		c.Violated(rule, cons, p.Pos(f.Pos()), "no uint64→int64 conversion of a power found in the end blocker reason=not-established")
+	case len(unguarded) == 0:
+		c.Held(rule, cons, p.Pos(f.Pos()), fmt.Sprintf("%d conversions, each under an upper bound on the converted power", n))
+	case allBounded && nAdd > 0:
+		c.Held(rule, cons, p.Pos(f.Pos()), fmt.Sprintf("%d conversions; all %d increases of Validator.Power are bounded where they are made", n, nAdd))
+	default:
+		c.Violated(rule, cons, unguarded[0], fmt.Sprintf("int64(validator power) at %s with no upper bound on the power, neither there nor at the increases of Validator.Power (%s): a power of 2^63 or more is reported to the consensus engine as a negative number", strings.Join(unguarded, ", "), strings.Join(unbounded, ", ")))
+	}
+	c.Floor(rule, "power conversions for the consensus engine", n, 2)
 }
